@@ -127,8 +127,39 @@ func (g *Gen) Node(depth, parent int) (doc Tree, exp Tree, ok bool) {
 	}
 }
 
+// keys of maps that have a key which is not a string: yaml decodes those as map[any]any.  Such a
+// map is never a dimension switch, whatever its string keys look like (D1a, default included);
+// it keeps its keys, its values are resolved, and Get cannot walk through it.
+var nonStringKeys = []string{"i:80", "i:443", "i:0", "i:-1", "i:1", "b:true", "b:false", "f:1.5", "n:"}
+var stringKeysBesideThem = []string{"s:a", "s:k1", "s:D1a", "s:D2b", "s:default", "s:d3c"}
+
+// AnyKeyed draws a map with at least one non-string key.
+func (g *Gen) AnyKeyed(depth int) (Tree, Tree, bool) {
+	n := 1 + g.R.IntN(4)
+	var dm, em []Entry
+	used := map[string]bool{}
+	ok := true
+	for i := 0; i < n; i++ {
+		k := nonStringKeys[g.R.IntN(len(nonStringKeys))]
+		if i > 0 && g.R.IntN(3) == 0 {
+			k = stringKeysBesideThem[g.R.IntN(len(stringKeysBesideThem))]
+		}
+		if used[k] {
+			continue
+		}
+		used[k] = true
+		d, e, o := g.Node(depth-1, 0)
+		dm, em = append(dm, Entry{K: k, V: d}), append(em, Entry{K: k, V: e})
+		ok = ok && o
+	}
+	return XMap(dm...), XMap(em...), ok
+}
+
 // Plain draws a plain map.
 func (g *Gen) Plain(depth int) (Tree, Tree, bool) {
+	if g.R.IntN(7) == 0 {
+		return g.AnyKeyed(depth)
+	}
 	n := 1 + g.R.IntN(5)
 	if g.R.IntN(6) == 0 {
 		n = 0
@@ -266,6 +297,9 @@ func (g *Gen) Document() (doc, exp Tree, ok bool) {
 	}
 	for {
 		doc, exp, ok = g.Plain(depth)
+		if doc.T != "m" { // the root of a configuration file is a string-keyed map
+			continue
+		}
 		if len(doc.M) > 1 || g.R.IntN(15) == 0 {
 			return doc, exp, ok
 		}
@@ -312,12 +346,15 @@ func Canon(t Tree) Tree {
 			l[i] = Canon(e)
 		}
 		return List(l...)
-	case "m":
+	case "m", "x":
 		es := make([]Entry, len(t.M))
 		for i, e := range t.M {
 			es[i] = Entry{K: e.K, V: Canon(e.V)}
 		}
 		sort.SliceStable(es, func(i, j int) bool { return es[i].K < es[j].K })
+		if t.T == "x" {
+			return XMap(es...)
+		}
 		return Map(es...)
 	}
 	return t
